@@ -303,7 +303,14 @@ class Check:
         for k in self._known:
             if k["sig"] == sig:
                 if sig not in [h["sig"] for h in self.known_hits]:
-                    self.known_hits.append(dict(sig=sig, text=k["text"] or text))
+                    # one replay file per known finding (stable name), so that it stays reproducible
+                    kdir = os.path.join(REPLAYS, "known")
+                    os.makedirs(kdir, exist_ok=True)
+                    kp = os.path.join(kdir, "%s-%s.json" % (self.prop, hashlib.sha1(sig.encode()).hexdigest()[:10]))
+                    with open(kp, "w") as fh:
+                        json.dump(dict(property=self.prop, sig=sig, text=text, known_finding=True, replay=replay_obj),
+                                  fh, indent=1, default=str)
+                    self.known_hits.append(dict(sig=sig, text=k["text"] or text, replay=kp))
                 return False
         os.makedirs(REPLAYS, exist_ok=True)
         h = hashlib.sha1(json.dumps(replay_obj, sort_keys=True, default=str).encode()).hexdigest()[:10]
@@ -345,5 +352,9 @@ def main(run_fn, prop, level):
         run_fn(c)
     except Inconclusive as e:
         print("INCONCLUSIVE property=%s %s" % (prop, str(e)[:3000]))
+        sys.exit(2)
+    except Exception:   # a failure of the machinery is never a verdict about the code
+        import traceback
+        print("INCONCLUSIVE property=%s internal error of the check:\n%s" % (prop, traceback.format_exc()[-3000:]))
         sys.exit(2)
     sys.exit(c.finish())
